@@ -190,7 +190,7 @@ func runC13(c *Ctx) {
 			{Key: kPath, Domain: strs("setup", "other")},
 			{Key: vPath, Domain: strs(setupValues...)},
 		},
-		Inline:   func(fn *types.Func) bool { return fn == crString.Obj },
+		Inline:   func(fn *types.Func) bool { return fn == crString.Obj || c13ValueHelper(fn) },
 		RootBind: map[string]absint.Val{"$p0": absint.Ref{Path: "$p0", NonNilRef: true}},
 	}
 	t2raw := absint.Tabulate(t2cfg, t2fn)
@@ -287,7 +287,7 @@ func runC13(c *Ctx) {
 		{Key: "$recv.remoteParameters.Role", Domain: dtlsDom},
 		{Key: "$recv.api.settingEngine.answeringDTLSRole", Domain: dtlsDom},
 		{Key: "$recv.iceTransport.Role()", Domain: iceDom},
-	}, Inline: func(fn *types.Func) bool { return c13Returns(fn, dtlsRoleT) }}, roleFn)
+	}, Inline: func(fn *types.Func) bool { return c13Returns(fn, dtlsRoleT) || c13ValueHelper(fn) }}, roleFn)
 	t5, ok5 := c13Single(c, "C13.R2", "DTLSTransport.role", c.P.Pos(roleFn.Decl.Pos()), t5raw,
 		[]string{"$recv.remoteParameters.Role", "$recv.api.settingEngine.answeringDTLSRole", "$recv.iceTransport.Role()"}, c13FirstResult)
 
@@ -631,7 +631,10 @@ func c13IceRoleTable(c *Ctx, setRemote, startTransports, isLite *core.FuncInfo) 
 		r.Undecided("C13.R3", "SetRemoteDescription|iceRole-inputs", pos, "cannot identify the locals holding 'the applied description is an answer' (desc.Type == SDPTypeAnswer) and isIceLiteSet(desc.parsed)")
 		return nil, false, iceVar, stCall
 	}
-	// both definitions must dominate the region start
+	// the definitions must dominate the use (the region's exit). A definition made before the region is bound to its
+	// dimension at region entry; isIceLiteSet(desc.parsed) may also be evaluated inside the region (the call is stubbed
+	// by the same dimension), so moving that pure statement next to its use changes nothing.
+	inRegionDef := map[string]bool{}
 	for k, v := range found {
 		dn := g.FindNodes(func(x ast.Node) bool {
 			as, ok := x.(*ast.AssignStmt)
@@ -645,11 +648,24 @@ func c13IceRoleTable(c *Ctx, setRemote, startTransports, isLite *core.FuncInfo) 
 			}
 			return false
 		})
-		if len(dn) != 1 || !g.Dominated(start, core.NodeSet(dn)) {
+		switch {
+		case len(dn) == 1 && g.Dominated(start, core.NodeSet(dn)):
+		case len(dn) == 1 && k == "remote-lite" && inRegion[dn[0]] && g.Dominated(stop, core.NodeSet(dn)):
+			inRegionDef[k] = true
+		default:
 			r.Undecided("C13.R3", "SetRemoteDescription|iceRole-inputs", pos, "definition of the "+k+" input does not dominate the region")
 			return nil, false, iceVar, stCall
 		}
 	}
+	boundVars := map[*types.Var]bool{iceVar: true}
+	for v, k := range bind {
+		boundVars[v] = true
+		if inRegionDef[k] {
+			delete(bind, v)
+		}
+	}
+	stopsMap := map[int]string{stop: "start-transports"}
+	prelude := c13RegionPrelude(g, setRemote.Decl, start, stopsMap, boundVars)
 	dims := []absint.Dim{
 		{Key: "we-offer", Domain: c13Bools},
 		{Key: "remote-lite", Domain: c13Bools},
@@ -657,8 +673,15 @@ func c13IceRoleTable(c *Ctx, setRemote, startTransports, isLite *core.FuncInfo) 
 	}
 	iceT := iceVar.Type()
 	t := absint.TabulateRegion(absint.Config{P: c.P, Dims: dims, MaxPaths: 200000,
-		Inline: func(fn *types.Func) bool { return c13Returns(fn, iceT) }}, g, setRemote.Obj.Type().(*types.Signature), setRemote.Obj,
-		absint.Region{Start: start, Stops: map[int]string{stop: "start-transports"}, Bind: bind, Observe: []*types.Var{iceVar}})
+		Inline: func(fn *types.Func) bool { return c13Returns(fn, iceT) || c13ValueHelper(fn) },
+		OnCall: func(in *absint.Interp, st *absint.State, call *ast.CallExpr, fn *types.Func, recv absint.Val, args []absint.Val) (absint.Val, bool) {
+			if fn == isLite.Obj && len(call.Args) == 1 && c13IsDescParsed(info, call.Args[0], descParam) {
+				v, _ := st.Dim("remote-lite")
+				return v, true
+			}
+			return nil, false
+		}}, g, setRemote.Obj.Type().(*types.Signature), setRemote.Obj,
+		absint.Region{Start: start, Stops: stopsMap, Bind: bind, Observe: []*types.Var{iceVar}, Prelude: prelude})
 	prefix := "observe " + iceVar.Name() + "="
 	tab, ok := c13Single(c, "C13.R3", "SetRemoteDescription.iceRole", c.P.Pos(g.PosOf(start)), t, []string{"we-offer", "remote-lite", "$recv.api.settingEngine.candidates.ICELite"},
 		func(o absint.Outcome) (string, bool) {
